@@ -677,6 +677,10 @@ class FreeDetectorView:
 
     def projection(self, det: str, i: int, retsub_any: bool = False) -> Any:
         gov, danger = DETECTOR_PROJECTIONS[det][i]
+        if gov != ["GroupSize"]:
+            # the governed transaction's field may also be checked through `gtxn i f` / `int i; gtxns f` together with a
+            # direct check of `txn GroupIndex`: reads by absolute index and GroupIndex comparisons are interpreted too
+            gov = list(gov) + [("abs", k, f) for f in gov for k in range(MAX_GROUP)] + ["GroupIndex"]
         key = (tuple(gov), f"{det}#{i}" if det.startswith(("is-", "unprotected")) or "close" in det else det + str(i), retsub_any)
         if key not in self.cache:
             self.cache[key] = free_admits(self.prog, gov, danger, self.unroll, self.st, retsub_any)
